@@ -16,13 +16,12 @@ FUNCTIONS = ["solvor.articulation.articulation_points", "solvor.articulation.bri
              "solvor.pagerank.pagerank", "solvor.pagerank.pagerank_edges[python]", "solvor.community.louvain"]
 BOUNDS = {
     "quick": "articulation/bridges/kcore: every undirected graph on 4 nodes (64) under 3 node orders x 2 neighbour orders and on 5 nodes (1024) "
-             "under 1 order, symmetric neighbour lists (kcore also with each edge listed by one endpoint only), with self-loop / duplicate-neighbour / outside-neighbour variants on 4 nodes, kcore(k) "
+             "under 1 order, symmetric neighbour lists and lists where each edge is listed by one endpoint only, with self-loop / duplicate-neighbour / outside-neighbour variants on 4 nodes, kcore(k) "
              "for symbolic k; pagerank: every loop-free digraph on 3 nodes (64) + 8 named 3-4 node digraphs with self loops, duplicate links and "
              "dangling nodes, damping in (0,1) and tol>=1e-12 symbolic, max_iter 2; louvain: every graph on 4 nodes + 6 named 5-6 node graphs, resolution>0 symbolic",
     "thorough": "graphs on 5 nodes under 3 orders; pagerank max_iter 3 and all 512 digraphs on 3 nodes with self loops; louvain every graph on 5 nodes",
 }
-OUTSIDE = ("asymmetric neighbour lists for articulation_points/bridges (they are documented for undirected graphs and do not symmetrise; a "
-           "probe harness reports how they behave but is not an obligation); more PageRank iterations than the bound (polynomial degree); float rounding")
+OUTSIDE = ("more PageRank iterations than the bound (polynomial degree); graphs beyond 5 nodes; float rounding")
 ASSUMPTIONS = ["edges are sets: a duplicate neighbour is the same edge listed twice; self loops do not affect cut vertices, bridges or cores",
                "PageRank reference equation: p = (1-d)/n + d*(sum_u p_u*mult(u,v)/outdeg(u) + dangling_mass/n); OPTIMAL implies |p - PR(p)|_inf <= n*tol",
                "floats as exact reals; 1.0/n is the exact value of the double, so sum-to-one carries a 1e-9 slack"]
@@ -275,8 +274,8 @@ def items(tier, rng):
                             "params": {"func": func, "n": 4, "pot": und(4), "order": order, "rev": rev, "labels": rev and order[0] == 2}})
         out.append({"name": "%s_4loops" % func, "harness": "h_struct", "split": 5,
                     "params": {"func": func, "n": 4, "pot": und(4, True), "order": [1, 3, 0, 2]}})
-        if func in ("kcore", "kcore_k"):
-            # kcore symmetrises its input: asymmetric neighbour lists are valid input for it (the property's quantifier names them)
+        if True:
+            # asymmetric neighbour lists are valid input (the property's quantifier names them): an edge listed by one endpoint only
             for asym in ("low", "high", "mix"):
                 for order in ([0, 1, 2, 3], [3, 1, 0, 2]):
                     out.append({"name": "%s_4asym" % func, "harness": "h_struct",
